@@ -71,7 +71,15 @@ def judge(sp):
             kind = ("exception:" + r[1]) if r[0] == "exc" else "candidate-sets-differ"
             from checks.c03_roundtrip import spec_features
             ft = spec_features(sp)
-            cls = ft or imm_class(sp) or mn_class(sp["mn"])
+            ic = imm_class(sp)
+            cls = ft or ic or mn_class(sp["mn"])
+            if kind == "candidate-sets-differ" and r0[1] and r[1] and all(x[:1] == b"\x3e" for x in r[1]) and set(x[1:] for x in r[1]) == set(r0[1]):
+                # a mechanism, not a feature of the input: the Intel front end drops an explicit ds: override ("DS is implicit"), the AT&T one keeps it
+                cls = "intel-drops-explicit-ds-override"
+            elif kind == "candidate-sets-differ" and ic:
+                cls = ic          # the immediate classes are listed with their operand width and direction (below), whatever the memory operand looks like
+            elif ft and kind == "candidate-sets-differ":
+                cls = "%s/%s/%s" % (ft, mn_class(sp["mn"]), "+".join(sp["shape"]))      # the feature alone would hide any later defect that involves it
             if kind == "candidate-sets-differ" and str(cls).split("+")[0] in ("negative-immediate", "immediate-with-top-bit-set", "immediate-out-of-range"):
                 # which side lacks candidates, and at which operand width: a listed difference of one kind must not cover another
                 a, b_ = set(r0[1]), set(r[1])
@@ -212,6 +220,48 @@ def w_sym(run, st_, k, items):
                         st_.fail(sig, r[1], r[2])
 
 
+def x87_lines():
+    out = []
+    for base in ("fadd", "fsub", "fsubr", "fmul", "fdiv", "fdivr"):
+        for i in range(8):
+            out += ["%s %%st(%d), %%st" % (base, i), "%s %%st, %%st(%d)" % (base, i), "%sp %%st, %%st(%d)" % (base, i), "%s %%st(%d)" % (base, i)]
+        out += ["%s %%st, %%st" % base, "%s %%st(0), %%st(0)" % base]
+    for mn in ("fxch", "fcom", "fcomp", "fucom", "fucomp", "fld", "fst", "fstp", "ffree", "fcomi", "fucomip"):
+        for i in (0, 1, 7):
+            out.append("%s %%st(%d)" % (mn, i) if mn not in ("fcomi", "fucomip") else "%s %%st(%d), %%st" % (mn, i))
+    return out
+
+
+def x87_transliteration(run):
+    """AT&T x87 register forms and their Intel transliteration must yield the same candidate set.  The transliteration is not written by
+    hand (the AT&T syntax exchanges fsub/fsubr and fdiv/fdivr when the destination is st(i)): GNU as assembles the AT&T line and objdump
+    prints the Intel text of those bytes - the tool chain that defines both syntaxes says which Intel line the AT&T line is"""
+    from vlib import refs
+    lines = x87_lines()
+    enc = refs.gas(lines, syntax="att", scratch=run.scratch)
+    ok = [(l, e) for l, e in zip(lines, enc) if e is not None]
+    texts = refs.objdump([e for _, e in ok], syntax="intel", scratch=run.scratch)
+    for (att, e), t in zip(ok, texts):
+        run.ev()
+        if t is None or t[0] != len(e):
+            run.exclude("x87_reference_text_unavailable")
+            continue
+        intel = " ".join(t[1].replace(",", ", ").split())
+        with runner.quiet():
+            ri, ra = run_asm(False, intel), run_asm(True, att)
+        if ri[0] != "ok" or not ri[1]:
+            run.exclude("x87_intel_text_of_objdump_not_accepted")
+            continue
+        mn = att.split()[0]
+        form = "st(0),st(0)" if att.count("%st(0)") + att.count("%st,") + int(att.endswith("%st")) >= 2 and "(" not in att.replace("%st(0)", "") else ("dst=st(i)" if att.rstrip().endswith(")") else "dst=st")
+        if ra != ri:
+            run.note(("att-transliteration-x87", mn, form, "exception:" + ra[1] if ra[0] == "exc" else "candidate-sets-differ"),
+                     "asm(%r) = %s but asm_att(%r) = %s (GNU as: %s)" % (intel, show(ri), att, show(ra), e.hex()), {"x87": att})
+        else:
+            run.klass("x87_transliteration_ok")
+            run.nt(("x87", att))
+
+
 def main(run):
     run.rule = ("Hypothesis specs (vlib/asmgen.py) x %d presentation-only rewrites applied where they change the text and cannot change the meaning, plus the AT&T "
                 "transliteration of the same spec; plus 3510 symbolic-displacement operands (base + name + number) in 3-5 equivalent spellings inside / outside the brackets; the candidate SETS are compared. non-trivial = a rewrite whose text differs from the base line; distinct = (rewrite, variant text)" % len(asmgen.REWRITES))
@@ -219,9 +269,22 @@ def main(run):
                        "lines whose base spelling is rejected are outside the domain"]
     runner.pmap(run, w_run, [run.pick(1200, 20000)] * 16)
     runner.pmap(run, w_sym, list(runner.chunks(sym_lines(), 80)))
+    x87_transliteration(run)
 
 
 def replay(run, case):
+    if "x87" in case:
+        class R(runner.Stats):
+            pass
+        r = R()
+        r.scratch = run.scratch
+        notes = []
+        r.note = lambda sig, det, c: notes.append((runner.norm_sig(sig), det, c))
+        x87_transliteration(r)
+        for sig, det, c in notes:
+            if c.get("x87") == case["x87"] and (run.want_sig is None or sig == run.want_sig):
+                return (sig, det)
+        return None
     if "sym" in case:
         with runner.quiet():
             state, res = judge_sym(tuple(case["sym"]))
